@@ -721,7 +721,20 @@ type schedRun struct {
 	Failed error
 }
 
-func c19RunSchedule(sc c19Scenario, variant int, choices []int) schedRun {
+// a panic of the library while a scenario is being set up or observed (outside the scheduled operations,
+// which recover on their own) is an observation - "no operation panics" - not a harness failure
+func c19RunSchedule(sc c19Scenario, variant int, choices []int) (ret schedRun) {
+	defer func() {
+		if p := recover(); p != nil {
+			msg := fmt.Sprint(p)
+			if len(msg) > 300 {
+				msg = msg[:300]
+			}
+			rp := c19Replay{Kind: "sched", Sched: &c19Sched{Scenario: sc.Name, Variant: variant, Choices: choices, Errs: []string{"panic outside the scheduled operations: " + msg}}}
+			ret = schedRun{Trace: nil, Case: Case{Coq: "KSched [0;1] [] (CS [] [] [] [] [] [] [] [] [] []) [] 1", Replay: rp, NonTrivial: true,
+				Key: fmt.Sprintf("sched-panic|%s|%d|%v", sc.Name, variant, choices)}}
+		}
+	}()
 	w := newC19World(variant)
 	ops, err := sc.Build(w)
 	if err != nil {
